@@ -294,6 +294,10 @@ func c02case(c *Ctx, text string, multi, inv bool) {
 	cls := strings.Fields(obs)[0]
 	c.Count("outcome=" + cls)
 	c.Count(fmt.Sprintf("opts=%s%s", bit(multi), bit(inv)))
+	if obs == "hang" {
+		c.Oracle("", fmt.Sprintf("decoding does not terminate (no result within %v)", decTimeout),
+			map[string]interface{}{"text_hex": hexs(text), "allowMultiLine": multi, "allowInvalidIndents": inv}, obs, "a document or an error")
+	}
 	if doc == nil {
 		return
 	}
